@@ -75,7 +75,9 @@ extern void *mpt_array_set(MPT_STRUCT(array) *arr, const MPT_STRUCT(type_traits)
 		if ((buf->_size < total)
 		 || (MPT_ENUM(BufferImmutable) & flags)
 		 || (MPT_ENUM(BufferShared) & flags)) {
-			if (!(buf = buf->_vptr->detach(buf, total))) {
+			/* private copy must hold existing data behind assigned range */
+			size_t need = (total < buf->_used) ? buf->_used : total;
+			if (!(buf = buf->_vptr->detach(buf, need))) {
 				return 0;
 			}
 			arr->_buf = buf;
